@@ -19,6 +19,31 @@ theorem tie_proxy_one_section : oneSection (toProg C16.proxyEvict) = true := by 
 /-- … and that lock is one object for all callers although handle.Evictor() builds a fresh proxy per call -/
 theorem tie_proxy_lock_shared : C16.proxyLockShared = true := by decide
 
+/-- the lock evictorProxy.Evict takes is a package-level variable — or a field of the framework while frameworks do not share
+    a limiter.  (The descheduler builds one framework per profile and gives all of them one limiter; both facts are
+    re-extracted from profile.NewMap / descheduler.New.)  A lock inside frameworkImpl or inside the proxy breaks this. -/
+theorem tie_proxy_lock_scope :
+    (C16.proxyLockScope == 0 ||
+      (C16.proxyLockScope == 1 && !(C16.profileFrameworkPerProfile && C16.profilesShareLimiter))) = true := by decide
+
+/-- what the `proxy` harness repeats by hand (package profile cannot be imported from package runtime): profile.NewMap reaches
+    NewFramework once per profile from inside its loop, forwarding its option list unchanged, and descheduler.New puts exactly
+    one WithEvictionLimiter option into that list — one framework per profile, one limiter for all of them.  (The `profiles`
+    harness goes through the real New and does not depend on this.) -/
+theorem tie_profiles_share_limiter :
+    C16.profileFrameworkPerProfile = true ∧ C16.profilesShareLimiter = true := by decide
+
+/-- `global_lock_safe_any_frameworks` for the lock scope of the current source: callers spread over any frameworks -/
+theorem tie_proxy_safe_any_frameworks (caps : Caps) (n : Nat) (req : Nat → Req) (sched : List Nat) :
+    ∀ sc, scopeOfCode C16.proxyLockScope = some sc →
+      let s := lrun elRefuse caps sc n req linit sched
+      IssuedWithin caps s.issued ∧ ((∀ j, insidePc (s.pc j) = false) → Good caps s.ctr s.issued) := by
+  intro sc h
+  have h0 : scopeOfCode C16.proxyLockScope = some .global := by decide
+  rw [h0] at h
+  cases h
+  exact global_lock_safe_any_frameworks caps n req sched
+
 /-- EvictionLimiter.AllowEvict only reads, Done only writes, each under the limiter's lock
     (so the pair is atomic only through the proxy's outer lock) -/
 theorem tie_limiter_sections :
